@@ -177,7 +177,10 @@ func (_this *edgeBuilder) BuildNewNode(ctx *Context) {
 }
 
 func (_this *edgeBuilder) BuildFromLocalReference(ctx *Context, id []byte) {
-	globalInterfaceBuilder.BuildFromLocalReference(ctx, id)
+	component := _this.components[_this.index]
+	ctx.NotifyLocalReference(id, func(object reflect.Value) {
+		setAnythingFromAnything(object, component)
+	})
 	_this.tryFinish(ctx)
 }
 
